@@ -1265,8 +1265,6 @@ int32 parseClientKeyExchange(ssl_t *ssl, int32 hsLen, unsigned char **cp,
             return MATRIXSSL_ERROR;
         }
     }
-    matrixUpdateSession(ssl);
-
     c += pubKeyLen;
     ssl->hsState = SSL_HS_FINISHED;
 
@@ -2808,6 +2806,11 @@ int32 parseFinished(ssl_t *ssl, int32 hsLen,
     {
         if (!(ssl->flags & SSL_FLAGS_RESUMED))
         {
+#ifdef USE_SERVER_SIDE_SSL
+            /* The client has proven the master secret (and, with client
+               authentication, its key): the session may now be resumed */
+            matrixUpdateSession(ssl);
+#endif
             rc = SSL_PROCESS_DATA;
         }
         else
